@@ -292,7 +292,8 @@ def run(ctx):
     pool = mp.get_context('fork').Pool(NPROC)   # forked before any thread is started, reused for every chunk
     # (M) and (G) run next to (V): three independent pipelines, results are only read after all have finished
     side = cf.ThreadPoolExecutor(max_workers=2)
-    fm = side.submit(ctx.model, 'WalkMC', 'WalkMC' if ctx.quick else 'WalkMC_thorough', MC_ACTIONS, 8)
+    fm = side.submit(lambda: ctx.model('WalkMC', 'WalkMC' if ctx.quick else 'WalkMC_thorough', required=MC_ACTIONS,
+                                       workers=8, heap='3g'))
     fg = side.submit(c14_gen.run, ctx)
     nprog, skipped = 0, []
     try:
